@@ -286,8 +286,9 @@ func c17Name(c *core.Ctx, k *core.Case) {
 
 func init() {
 	p := &core.Property{
-		ID:   "C17",
-		Rule: "GPRS timer 3: every t in 0..1 116 000 s; GPRS timer 2: every t in 0..11 160 s (decode <= t always, = t when representable); session AMBR: all 65 536 values × 5 units × 2 directions with a different value/unit in the other direction; time zones: all 159 quarter-hour zones × DST {none,+1,+2} whose sum stays within ±19:45, plus the DST element; time stamps: every second of sampled days and one instant per hour over 2000–2099 in fixed and tz-database zones (local year 2000–2099), octets compared with semi-octet BCD and decode(encode) = same instant and offset; network names: every length 0..64 over characters whose GSM-7 code equals their ASCII code, full and short. Non-trivial = every enumerated value (each is compared with an independent decoder); distinct by value.",
+		ID:         "C17",
+		Interleave: []string{"zone-one", "name"},
+		Rule:       "GPRS timer 3: every t in 0..1 116 000 s; GPRS timer 2: every t in 0..11 160 s (decode <= t always, = t when representable); session AMBR: all 65 536 values × 5 units × 2 directions with a different value/unit in the other direction; time zones: all 159 quarter-hour zones × DST {none,+1,+2} whose sum stays within ±19:45, plus the DST element; time stamps: every second of sampled days and one instant per hour over 2000–2099 in fixed and tz-database zones (local year 2000–2099), octets compared with semi-octet BCD and decode(encode) = same instant and offset; network names: every length 0..64 over characters whose GSM-7 code equals their ASCII code, full and short. Non-trivial = every enumerated value (each is compared with an independent decoder); distinct by value.",
 		Assumptions: []string{
 			"TS 24.008 GPRS timer 2/3 tables, TS 24.501 Table 9.11.4.14.1 unit codes, TS 23.040 semi-octet and time-zone coding, TS 23.038 7-bit packing — all written in /verif",
 			"the time stamp element carries the local calendar time plus zone (as the library emits and reads it); only local years 2000–2099 are in the domain",
